@@ -1456,7 +1456,11 @@ class Oracles:
                        lambda: env.network.get_total_sensitive_host_value(),
                        lambda: env.scenario.host_value_bounds,
                        lambda: env.action_space.sample(),
-                       env.generate_initial_state):
+                       env.generate_initial_state,
+                       env.close,
+                       lambda: __import__("copy").deepcopy(
+                           env.current_state),
+                       lambda: __import__("copy").deepcopy(env.scenario)):
                 try:
                     fn()
                 except Exception:
